@@ -22,8 +22,14 @@ pub mod findings;
 pub mod tmp;
 pub use findings::{Finding, Findings};
 
-pub const VERIF_ROOT: &str = "/verif";
-pub const REPO_ROOT: &str = "/repo";
+/// `/verif` and `/repo`; overridable (VERIF_ROOT / REPO_ROOT) only so that scratch copies
+/// used while developing or for sensitivity runs can be checked with the same binaries.
+pub fn verif_root() -> PathBuf {
+    PathBuf::from(std::env::var("VERIF_ROOT").unwrap_or_else(|_| "/verif".into()))
+}
+pub fn repo_root() -> PathBuf {
+    PathBuf::from(std::env::var("REPO_ROOT").unwrap_or_else(|_| "/repo".into()))
+}
 
 #[derive(Clone, Copy, Debug, PartialEq, Eq)]
 pub enum Tier {
@@ -186,7 +192,7 @@ fn strip_digits(s: &str) -> String {
 fn enclosing_fn(file: &str, line: u32) -> String {
     let candidates = [
         PathBuf::from(file),
-        Path::new(REPO_ROOT).join(file),
+        repo_root().join(file),
     ];
     for p in candidates {
         if let Ok(text) = std::fs::read_to_string(&p) {
@@ -218,7 +224,8 @@ fn enclosing_fn(file: &str, line: u32) -> String {
 }
 
 pub fn short_file(file: &str) -> String {
-    let f = file.strip_prefix("/repo/").unwrap_or(file);
+    let rr = format!("{}/", repo_root().display());
+    let f = file.strip_prefix(rr.as_str()).or_else(|| file.strip_prefix("/repo/")).unwrap_or(file);
     if let Some(i) = f.find("/src/") {
         // registry crates: keep crate dir name + path
         if f.contains(".cargo/registry") {
@@ -450,7 +457,7 @@ impl Ctx {
     }
 
     pub fn write_replay(&self, sig: &str, detail: &str, case: &J) -> PathBuf {
-        let dir = Path::new(VERIF_ROOT).join("replays").join(&self.prop);
+        let dir = verif_root().join("replays").join(&self.prop);
         let _ = std::fs::create_dir_all(&dir);
         let name = format!("{:016x}.json", hash_of(&(sig, case.to_string())));
         let path = dir.join(name);
@@ -520,7 +527,7 @@ impl Ctx {
             "wall_s": (self.elapsed_s() * 1000.0).round() / 1000.0,
             "violations": g.violations.len(),
         });
-        let dir = Path::new(VERIF_ROOT).join("evidence");
+        let dir = verif_root().join("evidence");
         let _ = std::fs::create_dir_all(&dir);
         let path = dir.join(format!("{}.json", self.prop));
         if let Err(e) = std::fs::write(&path, serde_json::to_string_pretty(&doc).unwrap()) {
@@ -691,7 +698,7 @@ pub fn replay_witnesses<C: Check>(ctx: &Arc<Ctx>, check: &C) {
     let list: Vec<Finding> = ctx.findings.for_property(&ctx.prop).cloned().collect();
     for fd in list {
         let Some(w) = &fd.witness else { continue };
-        let path = Path::new(VERIF_ROOT).join(w);
+        let path = verif_root().join(w);
         let Ok(text) = std::fs::read_to_string(&path) else {
             ctx.note(format!("witness {} unreadable", w));
             continue;
